@@ -38,14 +38,28 @@ class Module:
         for m in re.finditer(r'^(%[\w".:$<>,\- ]+?) = type (\{.*\}|<\{.*\}>|opaque)$', text, re.M):
             self.structs[m.group(1)] = m.group(2)
         self.funcs = {}
-        for m in re.finditer(r'^define [^@\n]*?@("[^"]+"|[\w.$]+)\((.*?)\)[^{\n]*\{\n(.*?)^\}', text, re.M | re.S):
-            self.funcs[m.group(1).strip('"')] = m
+        class _FM:      # match-like record: group(0) header line, (1) name, (2) argument list, (3) body
+            def __init__(self, g): self.g = g
+            def group(self, k): return self.g[k]
+        for m in re.finditer(r'^define [^@\n]*?@("[^"]+"|[\w.$]+)\(', text, re.M):
+            i0 = m.end(); depth = 1; i1 = i0
+            while depth:
+                ch = text[i1]
+                if ch == '(': depth += 1
+                elif ch == ')': depth -= 1
+                i1 += 1
+            eol = text.index('\n', i1)
+            end = text.index('\n}', eol)
+            self.funcs[m.group(1).strip('"')] = _FM({0: text[m.start():eol], 1: m.group(1), 2: text[i0:i1 - 1], 3: text[eol + 1:end + 1]})
         self.decls = {}
         for m in re.finditer(r'^declare [^@\n]*?@("[^"]+"|[\w.$]+)\((.*?)\)', text, re.M):
             self.decls[m.group(1).strip('"')] = m
         self.globals = {}
         for m in re.finditer(r'^@("[^"]+"|[\w.$]+) = (.*)$', text, re.M):
             self.globals[m.group(1).strip('"')] = m.group(2)
+        self.aliases = {}
+        for m in re.finditer(r'^@("[^"]+"|[\w.$]+) = [^\n]*?\balias [^\n]*?@("[^"]+"|[\w.$]+)\s*$', text, re.M):
+            self.aliases[m.group(1).strip('"')] = m.group(2).strip('"')
         self.aggs = {}      # C struct name -> list of field C types
         self.externs = {}
         self.used_globals = set()
@@ -135,7 +149,7 @@ def cname(n):
 def R(p):
     return p.replace('<T>', TYPE_RE)
 
-TYPE_RE = r'(?:%"[^"]*"|%[\w.$:]+|\{[^}]*\}|<\{[^}]*\}>|\[\d+ x [^\]]+\]|[\w]+)\**'
+TYPE_RE = r'(?:%"[^"]*"|%[\w.$:]+|\{[^}]*\}|<\{[^}]*\}>|\[\d+ x [^\]]+\]|[\w]+)\**(?: \((?:[^()]|\([^()]*\))*\)\*+)?'
 
 class FuncTranslator:
     def __init__(self, mod, name, signal_hook=False):
@@ -143,6 +157,7 @@ class FuncTranslator:
         self.decls = {}
         self.code = []
         self.callees = set()
+        self.stack = set()     # values known to point into this function's own allocas
 
     def val(self, tok, ty=None):
         tok = tok.strip()
@@ -150,8 +165,11 @@ class FuncTranslator:
         if tok.startswith('%'): return 'v' + re.sub(r'\W', '_', tok[1:])
         if tok.startswith('@'):
             g = tok[1:].strip('"')
+            g = mod.aliases.get(g, g)
             if g in mod.funcs or g in mod.decls:
-                self.callees.add(g); return '((char*)&%s)' % cname(g)
+                self.callees.add(g)
+                if g not in mod.funcs: mod.externs.setdefault(g, ('void', []))
+                return '((char*)&%s)' % cname(g)
             mod.used_globals.add(g); return '((char*)&g_%s)' % re.sub(r'\W', '_', g)
         if tok == 'true': return '1'
         if tok == 'false': return '0'
@@ -236,6 +254,8 @@ class FuncTranslator:
             bm = re.match(r'^([\w.]+):', ln)
             if bm:
                 blocks.append(cur); cur = (bm.group(1), [])
+            elif ln.strip().startswith('to label ') and cur[1]:
+                cur[1][-1] += ' ' + ln.strip()
             else:
                 cur[1].append(ln.strip())
         blocks.append(cur)
@@ -301,7 +321,7 @@ class FuncTranslator:
 
     def call(self, dst, rhs, lbl):
         mod = self.mod
-        im = re.match(R(r'(?:tail |musttail |notail )?(call|invoke) (?:[\w()]+ )*?(<T>) (?:\([^)]*\)\*? )?(@"[^"]+"|@[\w.$]+|%[\w.]+)\((.*)\)(.*)$'), re.sub(r'\b(noundef|zeroext|signext|nonnull|noalias|nocapture|readonly|writeonly|immarg|returned|inreg|fastcc|nofpclass\([^)]*\)|align \d+|dereferenceable(?:_or_null)?\(\d+\)|nsw|nuw|nnan|ninf|nsz|arcp|contract|afn|reassoc|fast)\b ?', '', rhs))
+        im = re.match(R(r'(?:tail |musttail |notail )?(call|invoke) (?:[\w()]+ )*?(<T>) (?:\([^)]*\)\*? )?(@"[^"]+"|@[\w.$]+|%[\w.]+)\((.*)\)(.*)$'), re.sub(r'\b(noundef|zeroext|signext|nonnull|noalias|nocapture|readonly|readnone|writeonly|immarg|returned|inreg|fastcc|nsw|nuw|nnan|ninf|nsz|arcp|contract|afn|reassoc|fast)\b ?', '', re.sub(r'\b(?:nofpclass\([^)]*\)|align \d+|dereferenceable(?:_or_null)?\(\d+\)|sret\([^)]*\)|byval\([^)]*\)) ?', '', rhs)))
         if not im: raise Unsupported('call syntax: ' + rhs)
         kind, rty, callee, argstr, tail = im.groups()
         args = []
@@ -327,8 +347,9 @@ class FuncTranslator:
             finish('((%s)%s)(%s)' % (fty, self.val(callee), ', '.join(avals)))
             return
         f = callee[1:].strip('"')
+        f = mod.aliases.get(f, f)
         if f.startswith('llvm.'):
-            if re.match(r'llvm\.(lifetime|dbg|assume|experimental\.noalias|invariant|prefetch|stackrestore|donothing)', f):
+            if re.match(r'llvm\.(lifetime|dbg|assume|experimental\.noalias|experimental\.\.scope|invariant|prefetch|stackrestore|donothing)', f):
                 if kind == 'invoke': self.code.append('  ' + self.edge(lbl, after))
                 return
             if f.startswith('llvm.stacksave'): finish('((char*)0)'); return
@@ -413,7 +434,7 @@ class FuncTranslator:
         if op in ('tail', 'musttail', 'notail') or op in ('call', 'invoke'):
             self.call(dst, rhs, lbl); return
         if op in ('add', 'sub', 'mul', 'and', 'or', 'xor', 'shl', 'lshr', 'udiv', 'urem'):
-            mm = re.match(r'\w+ (?:nsw |nuw |exact )*(\S+) (.+?), (.+)$', rhs); ty, a, b = mm.groups()
+            pa = split_top(re.sub(r'^\w+ (?:nsw |nuw |exact )*', '', rhs)); mm = re.match(r'(\S+) (.+)$', pa[0]); ty, a, b = mm.group(1), mm.group(2), pa[1]
             c = {'add': '+', 'sub': '-', 'mul': '*', 'and': '&', 'or': '|', 'xor': '^', 'shl': '<<', 'lshr': '>>', 'udiv': '/', 'urem': '%'}[op]
             wide = 'unsigned __int128' if mod.bits(ty) > 32 and op == 'mul' else None
             ea, eb = self.cast(ty, self.val(a, ty)), self.cast(ty, self.val(b, ty))
@@ -431,7 +452,7 @@ class FuncTranslator:
         if op == 'fneg':
             mm = re.match(r'fneg (?:[a-z]+ )*?(float|double|x86_fp80) (.+)$', rhs); self.setv(dst, mm.group(1), '-%s' % self.val(mm.group(2))); return
         if op == 'icmp':
-            mm = re.match(R(r'icmp (\w+) (<T>) (.+?), (.+)$'), rhs); pred, ty, a, b = mm.groups()
+            pm_ = re.match(r'icmp (\w+) (.*)$', rhs); pred = pm_.group(1); pa = split_top(pm_.group(2)); mm = re.match(R(r'(<T>) (.+)$'), pa[0]); ty, a, b = mm.group(1), mm.group(2), pa[1]
             c = {'eq': '==', 'ne': '!=', 'lt': '<', 'le': '<=', 'gt': '>', 'ge': '>='}[pred[-2:]]
             if ty.endswith('*'): f = lambda t, e: '((unsigned long)(%s))' % e
             else: f = self.scast if pred.startswith('s') else self.cast
@@ -464,7 +485,9 @@ class FuncTranslator:
             self.setv(dst, t2, e, raw=True); return
         if op == 'bitcast':
             mm = re.match(R(r'bitcast (<T>) (.+) to (<T>)$'), rhs); t1, a, t2 = mm.groups()
-            if t1.endswith('*') and t2.endswith('*'): self.setv(dst, t2, self.val(a)); return
+            if t1.endswith('*') and t2.endswith('*'):
+                if a.strip() in self.stack: self.stack.add(dst)
+                self.setv(dst, t2, self.val(a)); return
             self.decls[self.val(dst)] = mod.ctype(t2); tmp = self.val(dst)
             self.code.append('  { %s s_ = %s; memcpy(&%s, &s_, sizeof s_); }' % (mod.ctype(t1), self.val(a), tmp)); return
         if op == 'ptrtoint':
@@ -474,16 +497,16 @@ class FuncTranslator:
         if op == 'freeze':
             mm = re.match(R(r'freeze (<T>) (.+)$'), rhs); self.setv(dst, mm.group(1), self.val(mm.group(2), mm.group(1))); return
         if op == 'select':
-            mm = re.match(R(r'select (?:[a-z]+ )*?i1 (.+?), (<T>) (.+?), (<T>) (.+)$'), rhs); c, ty, a, _, b = mm.groups()
+            pa = split_top(re.sub(r'^select (?:[a-z]+ )*?i1 ', '', rhs)); c = pa[0]; mm = re.match(R(r'(<T>) (.+)$'), pa[1]); ty, a = mm.groups(); b = re.match(R(r'(<T>) (.+)$'), pa[2]).group(2)
             self.setv(dst, ty, '%s ? %s : %s' % (self.val(c), self.val(a, ty), self.val(b, ty)), raw=mod.is_struct(ty)); return
         if op == 'load':
-            mm = re.match(R(r'load (?:volatile |atomic )?(<T>), (<T>) ([^,]+)'), rhs); ty, _, p = mm.groups()
+            pa = split_top(re.sub(r'^load (?:volatile |atomic )?', '', rhs)); ty = pa[0]; p = re.match(R(r'(<T>) (.+)$'), pa[1]).group(2)
             self.decls[self.val(dst)] = mod.ctype(ty)
             self.code.append('  %s = *(%s*)%s;' % (self.val(dst), mod.ctype(ty), self.val(p))); return
         if op == 'store':
-            mm = re.match(R(r'store (?:volatile |atomic )?(<T>) (.+?), (<T>) ([^,]+)'), rhs); ty, v, _, p = mm.groups()
+            pa = split_top(re.sub(r'^store (?:volatile |atomic )?', '', rhs)); mm = re.match(R(r'(<T>) (.+)$'), pa[0]); ty, v = mm.groups(); p = re.match(R(r'(<T>) (.+)$'), pa[1]).group(2)
             self.code.append('  *(%s*)%s = %s;' % (mod.ctype(ty), self.val(p), self.val(v, ty) if mod.is_struct(ty) else self.cast(ty, self.val(v, ty))))
-            if self.signal_hook: self.code.append('  verif_maybe_signal();')
+            if self.signal_hook and p.strip() not in self.stack: self.code.append('  verif_maybe_signal();')
             return
         if op == 'alloca':
             mm = re.match(R(r'alloca (<T>)(?:, (\S+) (.+?))?(?:, align \d+)?$'), rhs); ty = mm.group(1)
@@ -494,8 +517,10 @@ class FuncTranslator:
             else:
                 self.decls[buf + '[%d]' % max(1, (n + 7) // 8)] = 'unsigned long'
                 self.code.append('  %s = (char*)%s;' % (self.val(dst), buf))
-            self.decls[self.val(dst)] = 'char*'; return
+            self.decls[self.val(dst)] = 'char*'; self.stack.add(dst); return
         if op == 'getelementptr':
+            bm_ = re.match(R(r'getelementptr (?:inbounds )?(<T>), (<T>) (%[\w.]+)'), rhs)
+            if bm_ and bm_.group(3) in self.stack: self.stack.add(dst)
             self.decls[self.val(dst)] = 'char*'
             self.code.append('  %s = %s;' % (self.val(dst), self.gep_expr(re.sub(r'^getelementptr (inbounds )?', '', rhs)))); return
         if op == 'extractvalue':
@@ -523,12 +548,16 @@ class FuncTranslator:
             self.code.append('  __CPROVER_assume(0); %s' % self.ret_default()); return
         if op == 'landingpad' or op == 'resume' or op == 'cleanup' or op == 'catch' or op == 'filter':
             if op == 'resume': self.code.append('  ir2c_threw = 1; %s' % self.ret_default())
-            elif dst: self.decls[self.val(dst)] = 'struct agg_lp'; self.mod.aggs['agg_lp'] = ['char*', 'unsigned int']
+            elif dst: self.decls[self.val(dst)] = self.mod.ctype('{ i8*, i32 }')
             return
         raise Unsupported('%s: %s' % (self.name, i))
 
-def translate(text, entries, hook_funcs=()):
+def translate(text, entries, hook_funcs=(), nohook=()):
     mod = Module(text)
+    if '*' in hook_funcs:
+        class _All:
+            def __contains__(self, f): return f not in nohook
+        hook_funcs = _All()
     todo, done, bodies, protos = list(entries), set(), [], []
     while todo:
         f = todo.pop()
@@ -539,49 +568,104 @@ def translate(text, entries, hook_funcs=()):
         bodies.append(ft.translate()); protos.append(ft.proto())
         for c in ft.callees:
             if c in mod.funcs and c not in done: todo.append(c)
-    out = ['/* generated by ir2c.py -- do not edit */', '#include "ir2c_rt.h"']
+    out = ['/* generated by ir2c.py -- do not edit */', '#include "ir2c_rt.h"', 'void verif_maybe_signal(void);']
     for n, fs in mod.aggs.items():
         out.append('struct %s { %s };' % (n, ' '.join('%s f%d;' % (t, i) for i, t in enumerate(fs))))
-    for g in sorted(mod.used_globals):
-        init = mod.globals.get(g, '')
-        gm = re.search(R(r'(?:global|constant) (<T>) ?(.*?)(?:, align \d+)?$'), init)
-        size = mod.sizeof(gm.group(1)) if gm else 8
-        cg = 'g_' + re.sub(r'\W', '_', g)
-        am = gm and re.fullmatch(r'\[(\d+) x (i\d+)\]', gm.group(1))
-        if gm and re.fullmatch(r'i\d+|float|double', gm.group(1)) and re.fullmatch(r'-?[\d.e+-]+', gm.group(2) or ''):
-            out.append('%s %s = %s;' % (mod.ctype(gm.group(1)), cg, gm.group(2)))
-        elif am and gm.group(2).startswith('['):
-            elems = re.findall(r'i\d+ (-?\d+)', gm.group(2))
-            if len(elems) != int(am.group(1)): raise Unsupported('global initializer ' + g)
-            out.append('%s %s[%s] = { %s };' % (mod.ctype(am.group(2)), cg, am.group(1), ', '.join('(%s)%sL' % (mod.ctype(am.group(2)), e) for e in elems)))
-        elif am and gm.group(2).startswith('c"'):
-            raw = gm.group(2)[2:gm.group(2).rindex('"')]
-            bs = []; i2 = 0
-            while i2 < len(raw):
-                if raw[i2] == '\\': bs.append(int(raw[i2 + 1:i2 + 3], 16)); i2 += 3
-                else: bs.append(ord(raw[i2])); i2 += 1
-            out.append('unsigned char %s[%d] = { %s };' % (cg, len(bs), ', '.join(map(str, bs))))
-        elif gm and gm.group(2).strip() not in ('', 'zeroinitializer', 'undef') and not init.startswith('external'):
-            raise Unsupported('global initializer of %s: %s' % (g, init[:80]))
-        else:
-            out.append('unsigned long %s[%d];  /* %s */' % (cg, max(1, (size + 7) // 8), init[:60].replace('*/', '')))
+    helper = FuncTranslator(mod, '<globals>')
+    init_code, gdecl, gdone = [], [], set()
+    def emit_const(ty, c, base, off):
+        ty, c = ty.strip(), c.strip()
+        if c in ('zeroinitializer', 'undef', 'poison', 'null', ''): return
+        if ty.endswith('*') or ty == 'ptr' or re.search(r'\)\*+$', ty):
+            if re.search(r'@_ZT[IS]', c): return          # RTTI is not modelled
+            init_code.append('  *(char**)(%s + %d) = %s;' % (base, off, helper.val(c))); return
+        if re.fullmatch(r'i\d+', ty):
+            init_code.append('  *(%s*)(%s + %d) = %s;' % (mod.ctype(ty), base, off, helper.cast(ty, helper.val(c, ty)))); return
+        if ty in ('float', 'double'):
+            init_code.append('  *(%s*)(%s + %d) = %s;' % (ty, base, off, helper.val(c))); return
+        am = re.fullmatch(r'\[(\d+) x (.*)\]', ty)
+        if am:
+            n, et = int(am.group(1)), am.group(2); es = mod.sizeof(et)
+            if c.startswith('c"'):
+                raw = c[2:c.rindex('"')]; i2 = 0; k = 0
+                while i2 < len(raw):
+                    if raw[i2] == '\\': b = int(raw[i2 + 1:i2 + 3], 16); i2 += 3
+                    else: b = ord(raw[i2]); i2 += 1
+                    if b: init_code.append('  *(unsigned char*)(%s + %d) = %d;' % (base, off + k, b))
+                    k += 1
+                return
+            elems = split_top(c[1:-1])
+            for k, e in enumerate(elems):
+                em = re.match(R(r'(<T>) (.*)$'), e)
+                emit_const(em.group(1), em.group(2), base, off + k * es)
+            return
+        if mod.is_struct(ty):
+            fs, packed = mod.fields(ty)
+            body = c.strip()
+            body = body[2:-2] if body.startswith('<{') else body[1:-1]
+            for k, e in enumerate(split_top(body)):
+                em = re.match(R(r'(<T>) (.*)$'), e)
+                fo, ft_ = mod.field_off(ty, k)
+                emit_const(em.group(1), em.group(2), base, off + fo)
+            return
+        raise Unsupported('constant of type ' + ty)
+    def do_globals():
+        progress = False
+        for g in sorted(mod.used_globals - gdone):
+            gdone.add(g); progress = True
+            init = mod.globals.get(g, '')
+            gm = re.search(R(r'(?:global|constant) (<T>) ?(.*?)(?:, (?:comdat[^,]*|section "[^"]*"|align \d+))*$'), init)
+            size = mod.sizeof(gm.group(1)) if gm else 8
+            cg = 'g_' + re.sub(r'\W', '_', g)
+            am = gm and re.fullmatch(r'\[(\d+) x (i\d+)\]', gm.group(1))
+            if gm and re.fullmatch(r'i\d+|float|double', gm.group(1)) and re.fullmatch(r'-?[\d.e+-]+', gm.group(2) or ''):
+                gdecl.append('%s %s = %s;' % (mod.ctype(gm.group(1)), cg, gm.group(2))); continue
+            if am and gm.group(2).startswith('['):
+                elems = re.findall(r'i\d+ (-?\d+)', gm.group(2))
+                if len(elems) != int(am.group(1)): raise Unsupported('global initializer ' + g)
+                gdecl.append('%s %s[%s] = { %s };' % (mod.ctype(am.group(2)), cg, am.group(1), ', '.join('(%s)%sL' % (mod.ctype(am.group(2)), e) for e in elems))); continue
+            gdecl.append('unsigned long %s[%d];  /* %s */' % (cg, max(1, (size + 7) // 8), init[:60].replace('*/', '')))
+            if gm and not init.startswith('external'):
+                emit_const(gm.group(1), gm.group(2) or '', '(char*)%s' % cg, 0)
+        return progress
+    while True:
+        p1 = do_globals()
+        p2 = False
+        for c in list(helper.callees):
+            if c in mod.funcs and c not in done:
+                done.add(c); ft = FuncTranslator(mod, c, signal_hook=c in hook_funcs)
+                bodies.append(ft.translate()); protos.append(ft.proto()); p2 = True
+                todo = [x for x in ft.callees if x in mod.funcs and x not in done]
+                while todo:
+                    f = todo.pop()
+                    if f in done: continue
+                    done.add(f); ft2 = FuncTranslator(mod, f, signal_hook=f in hook_funcs)
+                    bodies.append(ft2.translate()); protos.append(ft2.proto())
+                    todo += [x for x in ft2.callees if x in mod.funcs and x not in done]
+        if not p1 and not p2: break
+    out += gdecl
+    for c in helper.callees:
+        if c not in mod.funcs and c not in mod.externs: mod.externs[c] = ('void', [])
     for f, (rty, atys) in sorted(mod.externs.items()):
+        if f in ('strlen', 'strerror', 'memcmp', 'strcmp', 'abort', 'memchr', 'malloc', 'free'): continue
         out.append('extern %s %s(%s);' % (mod.ctype(rty), cname(f), ', '.join(mod.ctype(t) for t in atys) or 'void'))
     out += protos
     out += bodies
+    out.append('void ir2c_init_globals(void) {'); out += init_code; out.append('}')
     return '\n'.join(out) + '\n'
 
 if __name__ == '__main__':
     args = sys.argv[1:]
-    entries, hooks = [], []
+    entries, hooks, nohook = [], [], []
     path = args[0]
     i = 1
     while i < len(args):
         if args[i] == '--entry': entries = args[i + 1].split(','); i += 2
         elif args[i] == '--hook': hooks = args[i + 1].split(','); i += 2
+        elif args[i] == '--nohook': nohook = args[i + 1].split(','); i += 2
         else: raise SystemExit('bad option ' + args[i])
     try:
-        sys.stdout.write(translate(open(path).read(), entries, hooks))
+        sys.stdout.write(translate(open(path).read(), entries, hooks, nohook))
     except Unsupported as e:
         sys.stderr.write('ir2c: UNSUPPORTED %s\n' % e)
         sys.exit(3)
